@@ -104,6 +104,7 @@ type c36Harness struct {
 	base         map[string]bool
 	added, ticks int
 	cleanup      func()
+	wrapMet      func(metrics.Metrics) metrics.Metrics // optional: the collector (only) is given the wrapped metrics
 }
 
 var c36RefineryFrame = regexp.MustCompile(`github.com/honeycombio/refinery/(collect|transmit)[/.(]`)
@@ -178,9 +179,13 @@ func (s *c36Harness) Reset(init map[string]any) error {
 	if err := sf.Start(); err != nil {
 		return err
 	}
+	var collMet metrics.Metrics = s.met
+	if s.wrapMet != nil {
+		collMet = s.wrapMet(s.met)
+	}
 	s.coll = &InMemCollector{Config: h.conf, Clock: s.clock, Logger: &logger.NullLogger{}, Tracer: noop.NewTracerProvider().Tracer("verif"),
 		Health: hr, Sharder: &sharder.MockSharder{Self: &sharder.TestShard{Addr: "self"}}, Transmission: s.tx, PeerTransmission: &c01Tx{h: h, seen: map[string]int{}},
-		PubSub: lps, Metrics: s.met, SamplerFactory: sf, StressRelief: &c01Stress{}, Peers: peer.NewMockPeers([]string{"a"}, "a")}
+		PubSub: lps, Metrics: collMet, SamplerFactory: sf, StressRelief: &c01Stress{}, Peers: peer.NewMockPeers([]string{"a"}, "a")}
 	if err := s.coll.Start(); err != nil {
 		return err
 	}
